@@ -141,12 +141,13 @@ Proof.
   rewrite re_d_text by (try assumption; apply lit_rejects; reflexivity). rewrite lit_cons.
   rewrite re_H_text by (try assumption; apply lit_rejects; reflexivity). rewrite lit_cons.
   rewrite re_M_text by (try assumption; apply lit_rejects; reflexivity). rewrite lit_cons.
-  rewrite re_S_text; try assumption.
-  2:{ intros v c r Hc. destruct (negb (is_nil frac)); apply (lit_rejects _ _ _ (fun _ => _)); try reflexivity; exact Hc. }
   destruct frac as [|f fr]; cbn [is_nil negb app].
-  - rewrite lit_cons. reflexivity.
-  - rewrite lit_cons. rewrite re_f_text; try assumption; try reflexivity.
-    + rewrite lit_cons. reflexivity.
-    + apply (lit_rejects _ _ _ (fun _ => _)); reflexivity.
+  - rewrite re_S_text by (try assumption; apply lit_rejects; reflexivity).
+    rewrite lit_cons. reflexivity.
+  - rewrite re_S_text by (try assumption; apply lit_rejects; reflexivity).
+    rewrite lit_cons.
+    change (text_of (f :: fr) ++ [90%N]) with (text_of (f :: fr) ++ 90%N :: []).
+    rewrite re_f_text; try assumption; try reflexivity.
+    + refine (lit_rejects _ 90%N 122%N (fun us r => Some (_, _, _, _, _, _, us, r)) eq_refl eq_refl).
     + cbn [length] in *. lia.
 Qed.
